@@ -17,8 +17,9 @@ VERIF = os.path.dirname(os.path.dirname(os.path.abspath(__file__)))
 REPO = os.environ.get('TMVERIF_REPO', '/repo')
 REPO_PY = os.path.join(REPO, 'lib', 'python')
 LEAN_DIR = os.path.join(VERIF, 'lean')
-EVIDENCE_DIR = os.path.join(VERIF, 'evidence')
-REPLAY_DIR = os.path.join(VERIF, 'replays')
+# mutation-testing runs (TMVERIF_REPO set by tools/seed_run.py) must not overwrite the evidence of the real tree
+EVIDENCE_DIR = os.environ.get('TMVERIF_EVIDENCE_DIR') or os.path.join(VERIF, 'evidence')
+REPLAY_DIR = os.environ.get('TMVERIF_REPLAY_DIR') or os.path.join(VERIF, 'replays')
 CORPUS_DIR = os.path.join(VERIF, 'corpus')
 REGISTRY = os.path.join(VERIF, 'props_registry.json')
 KNOWN = os.path.join(VERIF, 'known_findings.json')
